@@ -146,6 +146,7 @@ def gen_hostile(ch, spec):
     cfg["base"] = ch.choice("cfg", [0.002, 0.02])
     cfg["victim_is_sctp_server"] = ch.chance("cfg", 0.5)
     cfg["codec"] = ch.choice("cfg", ["VP8", "H264"])
+    cfg["turn"] = fakes.gen_turn(ch, ["V"], chance=0.1)
     # ordinary network faults on the genuine traffic towards the victim (class d)
     cfg["p2v"] = random_profile(ch, "cfg", intensity=ch.choice("cfg", [0.0, 0.05, 0.2])).to_json()
     cfg["p2v"]["base"] = cfg["base"]
